@@ -202,6 +202,35 @@ def run(repo, tier):
         elif not swallowed_ok and q not in ('cli_main',):
             rep.note('{} from {} is absorbed (not converted) by a handler in {}'.format(exc, origin, q))
     rep.analysed['conversions seen'] = len(conv)
+    # R15.7 an AssemblerError already names its line: a handler that catches it (by name, by Exception or bare) and raises a
+    # *new* AssemblerError replaces the faulty line by the handler's own (e.g. the `include` line of a parent file)
+    relabel = {}
+    for q, h, exc, chain in esc.handlers_seen:
+        if exc != 'AssemblerError':
+            continue
+        raises = [n for n in ast.walk(h) if isinstance(n, ast.Raise)]
+        for r in raises:
+            if r.exc is None:
+                continue       # bare re-raise keeps the original
+            if isinstance(r.exc, ast.Name) and h.name and r.exc.id == h.name:
+                continue       # raise e
+            if isinstance(r.exc, ast.Call) and dotted(r.exc.func) == 'AssemblerError':
+                line_arg = r.exc.args[1] if len(r.exc.args) > 1 else None
+                keeps = line_arg is not None and h.name is not None and unparse(line_arg) in ('{}.line'.format(h.name),)
+                if not keeps:
+                    relabel.setdefault((q, id(h)), (q, h, r, chain))
+            elif isinstance(r.exc, ast.Call) and dotted(r.exc.func) in ('SystemExit',):
+                continue
+    for (q, _), (q2, h, r, chain) in sorted(relabel.items(), key=lambda t: t[0][0]):
+        if q2 == 'cli_main':
+            continue
+        origin = chain[-1]
+        rep.fail(Finding('R15.7.relabel', q2, r,
+                         'this handler also catches AssemblerError (e.g. the one raised at {}:{}) and replaces it by a new error carrying `{}`: a fault in an included file / deeper '
+                         'construct is reported at the wrong file and line'.format(origin[0], origin[1].lineno, unparse(r.exc.args[1]) if isinstance(r.exc, ast.Call) and len(r.exc.args) > 1 else '?'),
+                         line=r.lineno), instance='{} handler at {}'.format(q2, unparse(h.type) if h.type else 'bare'))
+    if not relabel:
+        rep.ok('R15.7.relabel', 'no handler re-labels an AssemblerError with another line')
     # R15.2 every AssemblerError(...) carries a Line
     n_ae = 0
     for q, fn in cg.funcs.items():
